@@ -23,9 +23,9 @@ outside its validity period is an error of `getOCSPForCert`; the period check ac
 absent NextUpdate -/
 theorem C14_tie_validity :
     CM.Gen.C14.reuseCond = "freshOCSP(_) && currentOCSP(_)" ∧
-    CM.Gen.C14.answerCheck = "!currentOCSP(_)" ∧ CM.Gen.C14.answerCheckReturnsError = true ∧
-    CM.Gen.C14.currentExpr =
-      "!_.Before(_.ThisUpdate) && (_.NextUpdate.IsZero() || !_.After(_.NextUpdate))" := by decide
+    CM.Gen.C14.answerCheck = "!currentOCSP(_)" ∧ CM.Gen.C14.answerCheckReturnsError = true := by decide
+-- (the spelling of `currentOCSP`'s expression is no longer a fact here: the function is tied whole —
+-- CM/Tie/FnC14.lean, C14_tie_fn_currentOCSP — and that tie stays proved under e.g. De Morgan)
 
 def subseq : List String → List String → Bool
   | [], _ => true
@@ -58,10 +58,10 @@ theorem C14_tie_not_fatal :
       ["Config.makeCertificateWithOCSP:log", "Config.CacheUnmanagedTLSCertificate:log",
        "Cache.updateOCSPStaples:continue", "Config.handshakeMaintenance:log"] := by decide
 
-/-- maintenance: the force-renew predicate, the skip and advance conditions, the guarded
-write-back and the removal when the forced renewal fails are the model's -/
+/-- maintenance: the skip and advance conditions, the guarded write-back and the removal when the forced
+renewal fails are the model's (the force-renew predicate `certShouldBeForceRenewed` is tied whole:
+CM/Tie/FnC14.lean, C14_tie_fn_certShouldBeForceRenewed) -/
 theorem C14_tie_maintenance :
-    CM.Gen.C14.forceRenewCond = "_.managed && len(_.Names) > 0 && _.ocsp != nil && _.ocsp.Status == ocsp.Revoked" ∧
     CM.Gen.C14.scanSkipCond = "_.ocsp.Status != ocsp.Unknown && freshOCSP(_.ocsp)" ∧
     CM.Gen.C14.advanceCond =
       "_.ocsp != nil && _.ocsp.Status == ocsp.Good && (_.IsZero() || lastNextUpdate != _.ocsp.NextUpdate)" ∧
